@@ -20,7 +20,7 @@
    written concurrently). *)
 From Coq Require Import List String Bool ZArith.
 Import ListNotations.
-From LC Require Import Base Tree Api ApiStep Frame Lexer Reader WriteFile RwFacts.
+From LC Require Import Base Tree Api ApiStep Frame Lexer Reader WriteFile RwFacts Locale ThreadLocale ThreadLocaleFacts.
 From LC.gen Require Import Census ScannerTables.
 
 (* (1) every schedule, every number of threads, every program: interleaved = alone *)
@@ -30,7 +30,7 @@ Theorem C14_interleaving_api : forall (sch : schedule aop) (cfgs : list cfg) i c
   let '(fin, rs) := run_sched cfg aop _ step cfgs sch in
   let '(fin_alone, rs_alone) := run_alone cfg aop _ step c (ops_of _ i sch) in
   nth_error fin i = Some fin_alone /\ results_of _ i rs = rs_alone.
-Proof. intros sch cfgs i c H. exact (interleaving_is_alone cfg aop _ _ sch cfgs i c H). Qed.
+Proof. intros sch cfgs i c H. exact (Frame.interleaving_is_alone cfg aop _ _ sch cfgs i c H). Qed.
 Print Assumptions C14_interleaving_api.
 
 Theorem C14_interleaving_rw : forall atof fmt (sch : schedule rwop) (sts : list (fs * cfg)) i st,
@@ -39,7 +39,7 @@ Theorem C14_interleaving_rw : forall atof fmt (sch : schedule rwop) (sts : list 
   let '(fin, rs) := run_sched _ rwop _ step sts sch in
   let '(fin_alone, rs_alone) := run_alone _ rwop _ step st (ops_of _ i sch) in
   nth_error fin i = Some fin_alone /\ results_of _ i rs = rs_alone.
-Proof. intros atof fmt sch sts i st H. exact (interleaving_is_alone _ rwop _ _ sch sts i st H). Qed.
+Proof. intros atof fmt sch sts i st H. exact (Frame.interleaving_is_alone _ rwop _ _ sch sts i st H). Qed.
 Print Assumptions C14_interleaving_rw.
 
 (* (2) the census of the current tree: no function other than libconfig_set_fatal_error_func writes any
@@ -57,3 +57,77 @@ Example C14_example :
   let '(fin, _) := run_sched cfg aop _ step [cfg_init; cfg_init] sch in
   map (fun c => List.length (s_kids (c_root c))) fin = [1; 1]%nat.
 Proof. reflexivity. Qed.
+
+
+(* ------------------------------------------------------------------------------------------------------- *)
+(* (3) finer than whole calls: the one piece of state a read or a write shares with the rest of the process  *)
+(* is the locale.  ThreadLocale.v: N threads, micro-steps Enter (newlocale + uselocale on the calling        *)
+(* thread, on a shared identity counter; newlocale may fail) / Run (the body under the radix character in     *)
+(* effect for THAT thread) / Leave (uselocale(previous) + freelocale), any schedule of micro-steps.           *)
+(* ------------------------------------------------------------------------------------------------------- *)
+
+(* every thread that has finished its program has exactly the results, the radix log, the data, the thread locale and
+   the global locale of its program run alone (folding Locale.with_locale), whatever the others did in between *)
+Theorem C14_locale_interleaving : forall (D R : Type) g n0 f0 (sps : list (tspec D R)) sched i sp,
+  nth_error sps i = Some sp ->
+  let m := run_machine sched (init_machine g n0 f0 sps) in
+  exists th, nth_error (m_threads m) i = Some th /\
+    (finished th ->
+     let '((rs, zs, d), s) := alone (mkLoc g (ts_loc sp) n0 f0) (ts_data sp) (ts_prog sp) in
+     t_res th = rs /\ t_rad th = zs /\ t_data th = d /\
+     t_loc th = ls_thread s /\ m_global m = ls_global s /\
+     eff_radix (view m th) = eff_radix s).
+Proof. exact interleaving_is_alone_finished. Qed.
+Print Assumptions C14_locale_interleaving.
+
+(* ... and at every point of every schedule, for the calls completed so far *)
+Theorem C14_locale_interleaving_prefix : forall (D R : Type) g n0 f0 (sps : list (tspec D R)) sched i sp,
+  nth_error sps i = Some sp ->
+  let m := run_machine sched (init_machine g n0 f0 sps) in
+  exists th, nth_error (m_threads m) i = Some th /\
+    let k := List.length (t_res th) in
+    let '((rs, zs, d), s) := alone (mkLoc g (ts_loc sp) n0 f0) (ts_data sp) (firstn k (ts_prog sp)) in
+    t_res th = rs /\ t_rad th = zs /\ t_data th = d /\
+    m_global m = ls_global s /\ (t_phase th = Idle -> t_loc th = ls_thread s).
+Proof. exact ThreadLocaleFacts.interleaving_is_alone. Qed.
+Print Assumptions C14_locale_interleaving_prefix.
+
+(* every body whose newlocale succeeded runs under '.', whatever the global locale, the thread's own locale and the other
+   threads are doing *)
+Theorem C14_bodies_run_under_dot : forall (D R : Type) g n0 f0 (sps : list (tspec D R)) sched i sp th k c z,
+  nth_error sps i = Some sp ->
+  nth_error (m_threads (run_machine sched (init_machine g n0 f0 sps))) i = Some th ->
+  nth_error (ts_prog sp) k = Some c -> nth_error (t_rad th) k = Some z ->
+  z = if c_ok c then 46%Z else match ts_loc sp with Some l => lo_radix l | None => lo_radix g end.
+Proof. exact bodies_run_under_dot. Qed.
+Print Assumptions C14_bodies_run_under_dot.
+
+(* whenever no thread is inside a call: the global locale and every thread's locale are the initial ones, and the locale
+   objects created so far have been freed exactly once each (none of the caller's objects) *)
+Theorem C14_locale_restored : forall (D R : Type) g n0 f0 (sps : list (tspec D R)) sched,
+  let m := run_machine sched (init_machine g n0 f0 sps) in
+  quiescent m ->
+  m_global m = g /\
+  List.length (m_threads m) = List.length sps /\
+  (forall i sp, nth_error sps i = Some sp ->
+     exists th, nth_error (m_threads m) i = Some th /\ t_loc th = ts_loc sp) /\
+  exists F, m_freed m = (f0 ++ F)%list /\
+    Permutation.Permutation F (created n0 (m_next m)) /\ NoDup F /\
+    (forall id, In id F <-> (n0 <= id < m_next m)%Z) /\
+    (forall id, (id < n0)%Z -> ~ In id F).
+Proof. exact restoration_under_interleaving. Qed.
+Print Assumptions C14_locale_restored.
+
+Theorem C14_finishing_schedule_exists : forall (D R : Type) g n0 f0 (sps : list (tspec D R)),
+  exists sched, all_finished (run_machine sched (init_machine g n0 f0 sps)).
+Proof. exact finishing_schedule_exists. Qed.
+
+(* a process-wide switch (setlocale) instead of the per-thread one is NOT safe: a schedule of two threads on which a body
+   runs under ',' although its own switch succeeded, and the global locale ends up changed; the same schedule on the
+   per-thread machine is fine.  Non-vacuity: three threads, one with a comma locale of its own, two failing newlocale *)
+Example C14_global_switch_refuted :
+  let m := grun_machine Examples.sched2 (init_machine Examples.de_DE 10 [] Examples.two) in
+  map t_rad (m_threads m) = [[46]; [44]]%Z /\ lo_radix (m_global m) <> lo_radix Examples.de_DE /\
+  let m' := run_machine Examples.sched2 (init_machine Examples.de_DE 10 [] Examples.two) in
+  map t_rad (m_threads m') = [[46]; [46]]%Z /\ m_global m' = Examples.de_DE /\ m_freed m' = [10; 11]%Z.
+Proof. vm_compute. repeat split; discriminate. Qed.
